@@ -100,6 +100,7 @@ type session struct {
 	ports    map[string]int
 	wasHTTP  map[string]int // name -> port of an HTTP listener that was removed / failed
 	held     map[string]net.Listener
+	reserved map[string]bool // names held by service ExC2 listeners (service scenarios)
 	live     map[string]string
 	bobSeen  int
 	aliceErr int
@@ -124,7 +125,7 @@ func newSession(c *lib.Ctx, onetime, service bool) (*session, error) {
 	}
 	s := &session{c: c, r: r, onetime: onetime,
 		model: map[string]*mListener{}, ports: map[string]int{}, wasHTTP: map[string]int{},
-		held: map[string]net.Listener{}, live: map[string]string{}}
+		held: map[string]net.Listener{}, live: map[string]string{}, reserved: map[string]bool{}}
 	s.addr = fmt.Sprintf("127.0.0.1:%d", r.Port)
 	s.httpc = &http.Client{Timeout: 30 * time.Second, Transport: &http.Transport{DisableKeepAlives: true}}
 	s.tsc = newTSClient()
@@ -236,6 +237,9 @@ func (s *session) apply(op Op) {
 	var info map[string]any
 	sub := 0
 	cur := s.model[op.N]
+	if cur == nil && s.reserved[op.N] {
+		cur = &mListener{Kind: "service-exc2"}
+	}
 	switch op.V {
 	case "add":
 		sub = opclient.ListenerAdd
@@ -399,6 +403,14 @@ func (s *session) post(port int, ua, uri, hdr int) (int, string) {
 	m := &demon.Meta{AgentID: id, Hostname: "H", Username: "u", Domain: "D", InternalIP: "10.0.0.1", ProcessPath: "C:\\p.exe",
 		PID: 1, TID: 2, PPID: 3, Arch: 2, BaseAddr: 0x1000, OS: [5]uint32{10, 0, 1, 0, 19045}, OSArch: 9, Sleep: 5}
 	body := demon.Register(id, key, iv, m)
+	st, b := s.postProfile(port, ua, uri, hdr, body)
+	if st == 0 {
+		return 0, b
+	}
+	return st, ""
+}
+
+func (s *session) postProfile(port, ua, uri, hdr int, body []byte) (int, string) {
 	req, err := http.NewRequest(http.MethodPost, fmt.Sprintf("http://127.0.0.1:%d/u-g%d", port, uri), bytes.NewReader(body))
 	if err != nil {
 		return 0, err.Error()
@@ -410,8 +422,13 @@ func (s *session) post(port int, ua, uri, hdr int) (int, string) {
 		return 0, err.Error()
 	}
 	defer resp.Body.Close()
-	io.Copy(io.Discard, resp.Body)
-	return resp.StatusCode, ""
+	b, _ := io.ReadAll(resp.Body)
+	return resp.StatusCode, string(b)
+}
+
+// postRaw posts body with the request profile of generation gen.
+func (s *session) postRaw(port, gen int, body []byte) (int, string) {
+	return s.postProfile(port, gen, gen, gen, body)
 }
 
 // probeProfile: the listener must judge the next requests by its current request profile
